@@ -456,8 +456,22 @@ async fn same_connection_publishers_x(n_pubs: usize, id: u64, finish_blocked: bo
     // topic B through the SAME client connection
     let t1 = Instant::now();
     let fut = async {
-        let mut sub = x.subscriber(&topic_b).with_decoder(BytesCodec).open().await.map_err(|e| format!("open subscriber on B: {e}"))?;
-        let mut publ = x.publisher(&topic_b).with_encoder(BytesCodec).open().await.map_err(|e| format!("open publisher on B: {e}"))?;
+        // (after an outage, open() fails until one of the client's streams has re-established the shared connection —
+        // that is how the library works; the application retries)
+        let mut sub = loop {
+            match x.subscriber(&topic_b).with_decoder(BytesCodec).open().await {
+                Ok(s) => break s,
+                Err(_) if outage => tokio::time::sleep(Duration::from_millis(100)).await,
+                Err(e) => return Err(format!("open subscriber on B: {e}")),
+            }
+        };
+        let mut publ = loop {
+            match x.publisher(&topic_b).with_encoder(BytesCodec).open().await {
+                Ok(p) => break p,
+                Err(_) if outage => tokio::time::sleep(Duration::from_millis(100)).await,
+                Err(e) => return Err(format!("open publisher on B: {e}")),
+            }
+        };
         let mut n = 0u8;
         loop {
             n = n.wrapping_add(1);
